@@ -22,10 +22,13 @@ theorem delRawF_run_drop (h : Handle) (name : String) (s : St) (st : Stored) (t2
 /-- frame of the unlinked deletions: caches and everything below `/metador_container` stay -/
 def TocSame (s s' : St) : Prop := s'.c = s.c ∧ ∀ q, q.head? = some .toc → get? s'.raw q = get? s.raw q
 
+/-- … and outside of it nodes only disappear -/
+def TocSameMono (s s' : St) : Prop := TocSame s s' ∧ Mono s s'
+
 theorem delRawF_spec {e : Env} {s : St} (ht : TreeOK e s.raw) {h : Handle} (hh : HOK s h)
     {name : String} {st : Stored} (hst : alGet h.objs name = some st) :
     ∃ s' h', h.delRaw name false s = (.ok h', s') ∧ TreeOK e s'.raw ∧ HOK s' h' ∧ h'.baseDir = h.baseDir ∧
-      s'.next = s.next ∧ TocSame s s' ∧ (∀ q, isInternal q = false → get? s'.raw q = get? s.raw q) ∧
+      s'.next = s.next ∧ TocSameMono s s' ∧ (∀ q, isInternal q = false → get? s'.raw q = get? s.raw q) ∧
       (∀ p r u, ObjAt s'.raw p r u ↔ (ObjAt s.raw p r u ∧ p ≠ st.path)) := by
   obtain ⟨⟨b, m, hb, hbase, hbg, hhost⟩, hobjs, hknd⟩ := hh
   obtain ⟨r, u, hname, rfl, hex⟩ := (hobjs name st).mp hst
@@ -81,8 +84,18 @@ theorem delRawF_spec {e : Env} {s : St} (ht : TreeOK e s.raw) {h : Handle} (hh :
       TreeOK e tf ∧ HOK ⟨tf, s.c, s.next⟩ { h with objs := alErase h.objs r.name } ∧
       (∀ q, q.head? = some .toc → get? tf q = get? s.raw q) ∧
       (∀ q, isInternal q = false → get? tf q = get? s.raw q) ∧
-      (∀ p r' u', ObjAt tf p r' u' ↔ (ObjAt s.raw p r' u' ∧ p ≠ objP)) := by
+      (∀ p r' u', ObjAt tf p r' u' ↔ (ObjAt s.raw p r' u' ∧ p ≠ objP)) ∧
+      (∀ q, q.head? ≠ some .toc → get? tf q = none ∨ get? tf q = get? s.raw q) := by
     intro tf drop _ hdrop gf hkf hcf
+    have hmono : ∀ q, q.head? ≠ some .toc → get? tf q = none ∨ get? tf q = get? s.raw q := by
+      intro q _
+      by_cases hq0 : q = []
+      · subst hq0; right; simp
+      · rw [gf q hq0]
+        split_ifs
+        · exact Or.inl rfl
+        · exact Or.inl rfl
+        · exact Or.inr rfl
     have hobjf : ∀ p r' u', ObjAt tf p r' u' ↔ (ObjAt s.raw p r' u' ∧ p ≠ objP) := by
       intro p r' u'
       constructor
@@ -114,7 +127,7 @@ theorem delRawF_spec {e : Env} {s : St} (ht : TreeOK e s.raw) {h : Handle} (hh :
       rw [gf q hq0, if_neg, if_neg]
       · rintro ⟨-, rfl⟩; exact objPath_head (k := []) hb hq
       · rintro rfl; exact hhead hq
-    refine ⟨⟨hkf, hcf, ?_, ?_, ?_, ?_, ?_⟩, ?_, htoc, huser, hobjf⟩
+    refine ⟨⟨hkf, hcf, ?_, ?_, ?_, ?_, ?_⟩, ?_, htoc, huser, hobjf, hmono⟩
     · intro q n hq hqt hg
       rw [gf q hq] at hg
       split_ifs at hg
@@ -211,7 +224,7 @@ theorem delRawF_spec {e : Env} {s : St} (ht : TreeOK e s.raw) {h : Handle} (hh :
       rw [hn] at this; cases this
     have h3 := rawDel_ok (t := t2) (p := b ++ [.metaDir m]) (by simp) hdir2
     set t3 := t2.filter (fun e => !under (b ++ [.metaDir m]) e.1) with ht3
-    obtain ⟨htree, hhok, htoc, huser, hobjf⟩ := key t3 True (by simp [hne]) (by
+    obtain ⟨htree, hhok, htoc, huser, hobjf, hmono⟩ := key t3 True (by simp [hne]) (by
         intro q hq
         rw [rawDel_get? h3 q hq, g2 q hq]
         by_cases hq1 : q = objP
@@ -240,19 +253,20 @@ theorem delRawF_spec {e : Env} {s : St} (ht : TreeOK e s.raw) {h : Handle} (hh :
             · rw [under_false_of_not_prefix hu]; simp)
       (rawDel_keys h3 (rawDel_keys h2 ht.keys)) (rawDel_pclosed h3 (rawDel_pclosed h2 ht.pclosed))
     exact ⟨⟨t3, s.c, s.next⟩, _, delRawF_run_drop h name s _ t2 t3 hst (by simpa [hobjP'] using h2) hne
-      (by rw [hbase]; exact h3), htree, hhok, rfl, rfl, ⟨rfl, htoc⟩, huser, hobjf⟩
-  · obtain ⟨htree, hhok, htoc, huser, hobjf⟩ := key t2 False (by simp [hne]) (by
+      (by rw [hbase]; exact h3), htree, hhok, rfl, rfl, ⟨⟨rfl, htoc⟩, hmono⟩, huser, hobjf⟩
+  · obtain ⟨htree, hhok, htoc, huser, hobjf, hmono⟩ := key t2 False (by simp [hne]) (by
         intro q hq
         rw [g2 q hq]; simp)
       (rawDel_keys h2 ht.keys) (rawDel_pclosed h2 ht.pclosed)
     exact ⟨⟨t2, s.c, s.next⟩, _, delRawF_run_keep h name s _ t2 hst (by simpa [hobjP'] using h2) hne,
-      htree, hhok, rfl, rfl, ⟨rfl, htoc⟩, huser, hobjf⟩
+      htree, hhok, rfl, rfl, ⟨⟨rfl, htoc⟩, hmono⟩, huser, hobjf⟩
 
 /-- `_del_raw(name, _unlink=False)` as an instance of `DelSpec` -/
-theorem delSpec_tree (e : Env) : DelSpec e false (fun s => TreeOK e s.raw) TocSame where
+theorem delSpec_tree (e : Env) : DelSpec e false (fun s => TreeOK e s.raw) TocSameMono where
   tree := fun _ h => h
-  refl := fun _ => ⟨rfl, fun _ _ => rfl⟩
-  trans := fun _ _ _ h1 h2 => ⟨h2.1.trans h1.1, fun q hq => (h2.2 q hq).trans (h1.2 q hq)⟩
+  refl := fun s => ⟨⟨rfl, fun _ _ => rfl⟩, Mono.refl s⟩
+  trans := fun _ _ _ h1 h2 =>
+    ⟨⟨h2.1.1.trans h1.1.1, fun q hq => (h2.1.2 q hq).trans (h1.1.2 q hq)⟩, h1.2.trans h2.2⟩
   del := fun _ _ _ _ ht hh hst => delRawF_spec ht hh hst
 
 end MetadorModel.Container
